@@ -732,6 +732,23 @@ def check(prop, tier):
     # judge what was found
     exit_code = 0
     lines = []
+    # regression corpus: plans that once showed a defect which has since been repaired (regress/<prop>/*.plan, committed); each is replayed
+    # in a fresh process and judged like any other run, so a repaired defect that comes back is reported even if no seed of this run meets it
+    reg_dir = os.path.join(ROOT, "regress", prop)
+    reg_n = 0
+    if os.path.isdir(reg_dir) and not os.environ.get("VERIF_NO_REGRESS"):
+        for fn in sorted(os.listdir(reg_dir)):
+            if not fn.endswith(".plan"):
+                continue
+            text = "".join(l for l in open(os.path.join(reg_dir, fn)) if not l.startswith(("expect ", "trace ")))
+            m = re.search(r"^expect .*?flavour=(\w+) profile=(\w+)", open(os.path.join(reg_dir, fn)).read(), re.M)
+            fl = m.group(1) if m and m.group(1) in flavours else ("asan" if "asan" in flavours else flavours[0])
+            pr = m.group(2) if m else (re.search(r"^profile (\w+)", text, re.M) or [None, "hist"])[1]
+            res, crash, _ = replay_once(fl, text, tag="regress", timeout=300)
+            reg_n += 1
+            for (vp, vc, detail) in violations_of(res, crash, fl, text, pr) if (res is not None or crash is not None) else []:
+                if vp == prop:
+                    found.setdefault((vp, vc), {"detail": "[regression plan regress/%s/%s] %s" % (prop, fn, detail), "flavour": fl, "profile": pr, "seed": 0, "opts": {}, "plan": text})
     known_hit = {}
     replay_dir = os.path.join(OUT, "replays", prop)
     viol_count = 0
@@ -812,6 +829,7 @@ def check(prop, tier):
             "violations_of_other_properties_seen": stats["foreign"],
             "violations_of_other_properties_first_seed": stats["foreign_ex"],
             "known_findings_matched": sorted(known_hit.keys()),
+            "regression_plans_replayed": reg_n,
             "twin_runs": twin_stats,
             "avoided_shapes": sorted(avoid),
             "real_components": ["every .c under /repo/qsopt_ex (dbl/mpq/mpf instantiations rebuilt from the working tree)", "esolver/esolver.c", "GMP", "zlib", "libbz2", "glibc stdio above fopencookie"],
